@@ -8,7 +8,9 @@ package server
 
 import (
 	"fmt"
+	"sort"
 	"strings"
+	"time"
 	"testing"
 
 	bnet "github.com/bio-routing/bio-rd/net"
@@ -69,6 +71,76 @@ type zvScenario struct {
 	name string
 	// build creates fresh objects and returns the thread bodies and the follow-up probe
 	build func() (threads []func(), followUp func())
+	// timed scenarios involve FSM goroutines and timers: instead of joining, the main thread lets virtual time pass
+	// (up to the reconnect interval twice) and then requires every operation thread to have completed
+	timed bool
+}
+
+// zvC25SessionScenarios: session control against the real FSM (fixture built with exploration switched off).
+func zvC25SessionScenarios() []zvScenario {
+	var sc []zvScenario
+	mk := func(name string, reach []string, ops func(s *zvSess) []func()) {
+		sc = append(sc, zvScenario{name: name, timed: true, build: func() ([]func(), func()) {
+			vsched.SetExploring(false)
+			s := zvSessStart(zvSessCfg{Name: "c25", A: zvPeerOpts{Addr: 9, Hold: 90 * time.Second}})
+			for _, e := range reach {
+				s.apply(e)
+			}
+			vsched.SetExploring(true)
+			return ops(s), func() {
+				// the server API is still usable
+				s.w.srv.GetPeers()
+				s.w.srv.Metrics()
+				s.w.rib4.Dump()
+			}
+		}})
+	}
+	states := map[string][]string{
+		"idle":        nil,
+		"openSent":    {evT15},
+		"openConfirm": {evT15, evOpen},
+		"established": {evT15, evOpen, evKA, evUpd1},
+	}
+	for _, st := range []string{"idle", "openSent", "openConfirm", "established"} {
+		reach := states[st]
+		mk("S4 stop||dispose in "+st, reach, func(s *zvSess) []func() {
+			return []func(){func() { s.pA.stop() }, func() { s.w.srv.DisposePeer(s.w.vrf, zvPeerIP(s.cfg.A)) }}
+		})
+	}
+	mk("S4 dispose||notification in established", states["established"], func(s *zvSess) []func() {
+		return []func(){func() { s.w.srv.DisposePeer(s.w.vrf, zvPeerIP(s.cfg.A)) }, func() { s.cA.deliver(zvwNotification(6, 4)) }}
+	})
+	mk("S4 dispose of a peer with a ceased FSM", states["openSent"], func(s *zvSess) []func() {
+		return []func(){func() {
+			s.fA.cease() // what collision handling does to the losing FSM
+			s.w.srv.DisposePeer(s.w.vrf, zvPeerIP(s.cfg.A))
+		}}
+	})
+	mk("S9 export-policy-replace via server||notification in established", states["established"], func(s *zvSess) []func() {
+		return []func(){func() { s.w.srv.ReplaceExportFilterChain(s.w.vrf, zvPeerIP(s.cfg.A), filter.NewDrainFilterChain()) }, func() { s.cA.deliver(zvwNotification(6, 4)) }}
+	})
+	mk("S9 import-policy-replace via server||update||stop in established", states["established"], func(s *zvSess) []func() {
+		return []func(){func() { s.w.srv.ReplaceImportFilterChain(s.w.vrf, zvPeerIP(s.cfg.A), filter.NewDrainFilterChain()) }, func() { s.cA.deliver(s.updateFor(zvR2)) }, func() { s.pA.stop() }}
+	})
+	// S7: update sender destroyed while route changes arrive and the aggregation ticker fires
+	for _, ap := range []bool{false, true} {
+		ap := ap
+		sc = append(sc, zvScenario{name: fmt.Sprintf("S7 updatesender destroy||addpath||tick addpath=%v", ap), timed: true, build: func() ([]func(), func()) {
+			vsched.SetExploring(false)
+			w := zvC10Build(ap)
+			w.aro.AddPath(zvC10Pfx[0], zvC10Path(1))
+			vsched.SetExploring(true)
+			return []func(){
+					func() { w.us.Destroy() },
+					func() { w.aro.AddPath(zvC10Pfx[1], zvC10Path(2)); w.aro.RemovePath(zvC10Pfx[0], zvC10Path(1)) },
+					func() { vsched.Sleep(5 * time.Millisecond) },
+				}, func() {
+					w.aro.AddPath(zvC10Pfx[0], zvC10Path(2))
+					w.aro.Dump()
+				}
+		}})
+	}
+	return sc
 }
 
 func zvC25Scenarios() []zvScenario {
@@ -207,12 +279,36 @@ type zvC25Case struct {
 func zvC25Run(r *vh.Run, sc zvScenario, bound int, only []int) {
 	var done []vsched.Handle
 	var followedUp bool
+	var stuck string
 	body := func() {
 		done = nil
 		followedUp = false
+		stuck = ""
 		threads, followUp := sc.build()
 		for i, f := range threads {
 			done = append(done, vsched.GoNamed(fmt.Sprintf("op%d", i+1), f))
+		}
+		if sc.timed {
+			vsched.Settle()
+			// the interleavings of the operations with the FSM goroutines have been explored up to here; the
+			// passage of time that follows (reconnect sleep, timers) is deterministic
+			vsched.SetExploring(false)
+			vsched.Advance(16 * time.Second)
+			vsched.Advance(16 * time.Second)
+			for _, h := range done {
+				if !h.Done() {
+					stuck = vsched.Describe()
+					return
+				}
+			}
+			fu := vsched.GoNamed("follow-up", followUp)
+			vsched.Advance(16 * time.Second)
+			if !fu.Done() {
+				stuck = "follow-up: " + vsched.Describe()
+				return
+			}
+			followedUp = true
+			return
 		}
 		vsched.Join(done...)
 		followUp()
@@ -224,7 +320,13 @@ func zvC25Run(r *vh.Run, sc zvScenario, bound int, only []int) {
 		c := zvC25Case{sc.name, x.Choices, bound}
 		switch x.Status {
 		case vsched.Completed:
-			if !followedUp {
+			if stuck != "" {
+				phase := "scenario"
+				if strings.HasPrefix(stuck, "follow-up") {
+					phase = "follow-up (unusable)"
+				}
+				r.Violation(vh.Sig("clause", "deadlock", "scenario", sc.name, "phase", phase, "blocked_in", strings.Join(zvBlockedFns(stuck), "|")), c, "operations never completed although 32 s of virtual time passed: %s", stuck)
+			} else if !followedUp {
 				r.Fatalf("scenario %s completed without follow-up", sc.name)
 			}
 		case vsched.Deadlock:
@@ -270,6 +372,39 @@ func zvC25Run(r *vh.Run, sc zvScenario, bound int, only []int) {
 	}
 }
 
+// zvBlockedFns extracts "op@function" of the operation threads from a Describe() string.
+func zvBlockedFns(desc string) []string {
+	set := map[string]bool{}
+	for _, part := range strings.Split(desc, "; ") {
+		if !strings.Contains(part, "(op") && !strings.Contains(part, "(follow-up)") {
+			continue
+		}
+		i := strings.Index(part, "blocked at ")
+		if i < 0 {
+			continue
+		}
+		rest := part[i+len("blocked at "):]
+		op := rest
+		if j := strings.Index(rest, "("); j > 0 {
+			op = strings.TrimSpace(rest[:j])
+		}
+		fn := ""
+		if j := strings.LastIndex(rest, " "); j > 0 {
+			fn = strings.TrimSuffix(rest[j+1:], ")")
+		}
+		if k := strings.Index(op, " "); k > 0 {
+			op = op[:k]
+		}
+		set[op+"@"+fn] = true
+	}
+	var out []string
+	for k := range set {
+		out = append(out, k)
+	}
+	sort.Strings(out)
+	return out
+}
+
 func TestVerifC25(t *testing.T) {
 	r := vh.Start(t, "C25")
 	defer r.Finish()
@@ -281,7 +416,7 @@ func TestVerifC25(t *testing.T) {
 		"non-trivial = scenarios", bound))
 	r.Require("executions")
 	r.Extra("preemption_bound", bound)
-	scs := zvC25Scenarios()
+	scs := append(zvC25Scenarios(), zvC25SessionScenarios()...)
 	if r.IsReplay() {
 		var c zvC25Case
 		r.ReplayCase(&c)
